@@ -7,7 +7,9 @@ package main
 //
 //	new <mem|level|pndb> <version>   always first
 //	ver <n>                          set the trie version
-//	ins <path> <hexvalue> | del <path>
+//	ins <path> <hexvalue> | del <path>   the caller's path and value buffers are scribbled over afterwards
+//	get <path>                       GetNodeValueRaw through the trie and through a CloneMPT (fresh cache); every
+//	                                 returned slice is scribbled over afterwards
 //	layer                            (level only) save the pending changes to the side PNodeDB, then continue on a new
 //	                                 LevelNodeDB stacked on the current store (nodes now live on several levels)
 //	touch <v>                        what a pruning sweep does: every stored node is read (GetNode), its VERSION set to v
@@ -20,6 +22,9 @@ package main
 //
 //	store/save -> "ok <root|-> <key>=<stored bytes>,..."  the nodes reachable from the root, sorted by key
 //	              (PNodeDB: the raw bytes of the fake RocksDB; memory / level: Encode() of the stored node)
+//
+// Before every inspection every path of the history is read back (and the result scribbled over) through fresh tries
+// over the inspected store, twice, and compared with the Go map.
 //
 // Oracle at store/save, over EVERY entry of EVERY store (reachable or not), obtained through the exported
 // NodeDB.Iterate and, for PNodeDB, additionally from the raw snapshot of the fake RocksDB:
@@ -48,6 +53,7 @@ type c14State struct {
 	savedb  *util.PNodeDB
 	savedir string
 	content map[string][]byte
+	used    map[string]bool
 	version int64
 }
 
@@ -64,8 +70,48 @@ func sameContent(a, b map[string][]byte) bool {
 	return true
 }
 
+// lookupScribble reads path through mpt, then scribbles over the returned slice: a value handed out by a read belongs to
+// the caller, modifying it must not reach any stored node.
+func lookupScribble(mpt *util.MerklePatriciaTrie, path string) string {
+	return guard(func() string {
+		v, err := mpt.GetNodeValueRaw([]byte(path))
+		if err != nil {
+			return errKind(err)
+		}
+		out := "ok " + hx(v)
+		for j := range v {
+			v[j] ^= 0xff
+		}
+		return out
+	})
+}
+
+// readBack reads every path the history used through FRESH tries (fresh transaction cache: CloneMPT for the trie's own
+// store, a new trie otherwise) over db, twice, compares with the Go map and scribbles over every returned slice.
+func (st *c14State) readBack(tag string, db util.NodeDB, fail func(string, ...interface{})) {
+	root := st.mpt.GetRoot()
+	for pass := 0; pass < 2; pass++ {
+		var m2 *util.MerklePatriciaTrie
+		if db == st.db && pass == 0 {
+			m2 = util.CloneMPT(st.mpt)
+		} else {
+			m2 = newMPT(db, st.version, root)
+		}
+		for p := range st.used {
+			want := "notpresent"
+			if v, ok := st.content[p]; ok {
+				want = "ok " + hx(v)
+			}
+			if got := lookupScribble(m2, p); got != want {
+				fail("%s: lookup(%s) through a fresh trie over the store (pass %d) = %q, want %q", tag, ptok(p), pass, got, want)
+			}
+		}
+	}
+}
+
 // inspectStore applies the C14 oracle to one store and returns the output line.
 func (st *c14State) inspect(tag string, db util.NodeDB, dir string, fail func(string, ...interface{}), tags map[string]bool) string {
+	st.readBack(tag, db, fail)
 	all := checkNodeDB(tag, db, fail)
 	if dir != "" {
 		snap := grocksdb.FakeSnapshot(dir, "default")
@@ -114,7 +160,28 @@ func (st *c14State) inspect(tag string, db util.NodeDB, dir string, fail func(st
 	return "ok " + rootStr(root) + " " + fmtEntries(all, keys)
 }
 
+// runC14 runs the case scribbling over every buffer handed to or received from the trie. If it fails, it is run again
+// without scribbling over the PATH buffers handed to Insert / Delete: a case that then passes fails only because the trie
+// keeps the caller's path buffer (open known finding C14-path-aliasing); anything else is reported unlisted.
 func runC14(ops []string) CaseResult {
+	res := runC14x(ops, true)
+	if len(res.Fails) > 0 {
+		for _, m := range res.Fails {
+			if strings.HasPrefix(m, "harness") {
+				return res
+			}
+		}
+		if again := runC14x(ops, false); len(again.Fails) == 0 {
+			// report the finding, but hand the outputs of the clean run to the correspondence: the byte-exact tie with
+			// the model stays in force for this case
+			again.Fails, again.Finding = res.Fails, "C14-path-aliasing"
+			return again
+		}
+	}
+	return res
+}
+
+func runC14x(ops []string, scribblePaths bool) CaseResult {
 	var st *c14State
 	res := CaseResult{}
 	tags := map[string]bool{}
@@ -135,7 +202,7 @@ func runC14(ops []string) CaseResult {
 		switch f[0] {
 		case "new":
 			v, _ := strconv.ParseInt(f[2], 10, 64)
-			st = &c14State{kind: f[1], content: map[string][]byte{}, version: v}
+			st = &c14State{kind: f[1], content: map[string][]byte{}, used: map[string]bool{}, version: v}
 			switch f[1] {
 			case "pndb":
 				st.dir = freshDir("c14")
@@ -166,23 +233,34 @@ func runC14(ops []string) CaseResult {
 			out = "ok"
 		case "ins", "del":
 			path := pathOf(f[1])
+			st.used[path] = true
 			var val []byte
 			if f[0] == "ins" {
 				val = unhx(f[2])
 			}
+			pathBuf, valBuf := []byte(path), append([]byte(nil), val...)
 			out = guard(func() string {
 				var k util.Key
 				var err error
 				if f[0] == "del" {
-					k, err = st.mpt.Delete([]byte(path))
+					k, err = st.mpt.Delete(pathBuf)
 				} else {
-					k, err = st.mpt.Insert([]byte(path), mkVal(append([]byte(nil), val...)))
+					k, err = st.mpt.Insert(pathBuf, mkVal(valBuf))
 				}
 				if err != nil {
 					return errKind(err)
 				}
 				return "ok " + rootStr(k)
 			})
+			// the buffers handed in stay the caller's: scribble over them, no stored node may change
+			for j := range pathBuf {
+				if scribblePaths {
+					pathBuf[j] = 'f'
+				}
+			}
+			for j := range valBuf {
+				valBuf[j] ^= 0xff
+			}
 			if strings.HasPrefix(out, "ok") {
 				if f[0] == "ins" {
 					st.content[path] = val
@@ -192,6 +270,23 @@ func runC14(ops []string) CaseResult {
 				mutations++
 			} else if out == "panic" {
 				fail("operation panicked")
+			}
+		case "get":
+			path := pathOf(f[1])
+			st.used[path] = true
+			want := "notpresent"
+			if v, ok := st.content[path]; ok {
+				want = "ok " + hx(v)
+			}
+			out = lookupScribble(st.mpt, path)
+			if out != want {
+				fail("lookup = %q, want %q", out, want)
+			}
+			if got := lookupScribble(util.CloneMPT(st.mpt), path); got != want {
+				fail("lookup through a clone of the trie (fresh cache) = %q, want %q", got, want)
+			}
+			if got := lookupScribble(st.mpt, path); got != want {
+				fail("second lookup = %q, want %q", got, want)
 			}
 		case "layer":
 			if st.kind != "level" {
@@ -313,6 +408,14 @@ func genC14(r *rand.Rand, tier string, idx int) []string {
 	}
 	n := 2 + r.Intn(maxOps-1)
 	var pool []string
+	if idx%40 == 39 {
+		// a deep comb: 33..64 node levels below the root
+		for _, k := range genComb(r, 33+r.Intn(31)) {
+			ops = append(ops, "ins "+k+" "+genValue14(r))
+			pool = append(pool, k)
+		}
+		n = 4
+	}
 	for k := 0; k < n; k++ {
 		x := r.Intn(100)
 		p0 := genPath(r, alpha, pool)
@@ -321,13 +424,15 @@ func genC14(r *rand.Rand, tier string, idx int) []string {
 		case x < 55:
 			ops = append(ops, "ins "+p+" "+genValue14(r))
 			pool = append(pool, p0)
-		case x < 78:
+		case x < 75:
 			ops = append(ops, "del "+p)
-		case x < 86:
+		case x < 82:
 			ver += int64(r.Intn(3))
 			ops = append(ops, fmt.Sprintf("ver %d", ver))
-		case x < 91 && kind == "level":
+		case x < 87 && kind == "level":
 			ops = append(ops, "layer")
+		case x < 93:
+			ops = append(ops, "get "+p)
 		case x < 95:
 			ops = append(ops, "store")
 		case x < 97:
